@@ -826,7 +826,23 @@ func (e *Exec) copyOp(dst, src Slice) Value {
 
 // ---- channels / goroutines: not part of sequential harnesses ----
 
+// goBlocked unwinds an inlined goroutine (footprint mode) that would block.
+type goBlocked struct{}
+
 func (e *Exec) chanRecv(c Value, commaOk bool) Value {
+	if ch, ok := c.(*Chan); ok && ch != nil && !e.evOn() && e.foot != nil {
+		if ch.closed {
+			if commaOk {
+				return Tuple{Struct{}, sym.Bool(false)}
+			}
+			return Struct{}
+		}
+		if e.goDepth > 0 {
+			// a receive that blocks inside an inlined goroutine: the goroutine is
+			// left blocked (its remaining accesses are not part of this path)
+			panic(goBlocked{})
+		}
+	}
 	if e.evOn() {
 		if ch, ok := c.(*Chan); ok && ch != nil {
 			e.evRecv(ch)
@@ -848,6 +864,30 @@ func (e *Exec) chanSend(c, v Value) {
 func (e *Exec) goStmt(fr *frame, fn Value, args []Value) {
 	if e.evOn() {
 		e.evSpawn(fr, fn, args)
+		return
+	}
+	if e.foot != nil && e.origin != "" {
+		// footprint mode: the goroutine's body is executed at once (one of its
+		// possible schedules) under an origin of its own, so that the conflict
+		// lemma — which does not depend on the order of accesses — also relates
+		// the goroutine to its creator and to its siblings. A goroutine that
+		// would block on a channel is left blocked.
+		e.goSeq++
+		saved := e.origin
+		e.origin = fmt.Sprintf("%s/go#%d", saved, e.goSeq)
+		e.goDepth++
+		func() {
+			defer func() {
+				e.goDepth--
+				e.origin = saved
+				if r := recover(); r != nil {
+					if _, ok := r.(goBlocked); !ok {
+						panic(r)
+					}
+				}
+			}()
+			e.CallValue(fn, args...)
+		}()
 		return
 	}
 	e.unsupported("go statement at %s", e.where())
